@@ -8,6 +8,7 @@ pub mod util;
 pub mod bfs;
 pub mod fe;
 pub mod modes;
+pub mod seekm;
 
 pub mod c01;
 pub mod c02;
@@ -16,6 +17,8 @@ pub mod c05;
 pub mod c07;
 pub mod c08;
 pub mod c09;
+pub mod c10;
+pub mod c11;
 pub mod c12;
 pub mod c13;
 pub mod c14;
@@ -28,7 +31,7 @@ use std::time::Instant;
 type CheckFn = fn(&Ctx) -> Outcome;
 
 fn checks() -> Vec<(&'static str, CheckFn)> {
-    vec![("C01", c01::run as CheckFn), ("C02", c02::run as CheckFn), ("C03", c03::run as CheckFn), ("C05", c05::run as CheckFn), ("C07", c07::run as CheckFn), ("C08", c08::run as CheckFn), ("C09", c09::run as CheckFn), ("C12", c12::run as CheckFn), ("C13", c13::run as CheckFn), ("C14", c14::run as CheckFn)]
+    vec![("C01", c01::run as CheckFn), ("C02", c02::run as CheckFn), ("C03", c03::run as CheckFn), ("C05", c05::run as CheckFn), ("C07", c07::run as CheckFn), ("C08", c08::run as CheckFn), ("C09", c09::run as CheckFn), ("C10", c10::run as CheckFn), ("C11", c11::run as CheckFn), ("C12", c12::run as CheckFn), ("C13", c13::run as CheckFn), ("C14", c14::run as CheckFn)]
 }
 
 struct Args {
@@ -133,8 +136,19 @@ fn cmd_check(reg: &Registry, bin: &str, args: &Args) -> i32 {
     }
     let replay_dir = args.opts.get("replays").cloned().unwrap_or_else(|| "/verif/replays".into());
     let mut lines = vec![];
-    for (full, v, desc) in &known_v {
-        lines.push(format!("KNOWN-FINDING: property={id} {full}: {} [{} occurrences; e.g. {}]", if desc.is_empty() { &v.msg } else { desc }, v.count, v.unit));
+    // one line per listed finding (a listed fingerprint may cover several flavours)
+    {
+        let mut groups: std::collections::BTreeMap<usize, (u64, Vec<String>, String)> = Default::default();
+        for (full, v, _) in &known_v {
+            let i = known.iter().position(|k| full == k || full.starts_with(&format!("{k}/"))).unwrap_or(0);
+            let e = groups.entry(i).or_insert((0, vec![], v.unit.clone()));
+            e.0 += v.count;
+            e.1.push(full[known[i].len()..].trim_start_matches('/').to_string());
+        }
+        for (i, (count, subs, unit)) in groups {
+            let desc = known_desc.get(i).cloned().unwrap_or_default();
+            lines.push(format!("KNOWN-FINDING: property={id} {} [{}]: {} ({} occurrences; e.g. {})", known[i], subs.join(","), desc, count, unit));
+        }
     }
     let mut replay_paths = vec![];
     for (full, v) in &new_v {
